@@ -36,6 +36,13 @@ THEOREMS = [
     "Scenic.C18.bytes_truncation_refused",
     "Scenic.C18.scalar_divergence_symmetric",
     "Scenic.C18.signed_difference_misses_negative",
+    "Scenic.Sample.value_roundtrip",
+    "Scenic.Sample.sample_roundtrip",
+    "Scenic.Sample.sample_truncation_refused",
+    "Scenic.Sample.scene_header_refuses_mismatch",
+    "Scenic.Sample.scene_roundtrip",
+    "Scenic.C18.sample_roundtrip",
+    "Scenic.C18.sample_truncation_refused",
 ]
 SIDE = ["Scenic.C18.gen_table_wf", "Scenic.C18.gen_reads_checked", "Scenic.C18.gen_divergence_abs"]
 
@@ -418,6 +425,122 @@ def canon_scene(scene):
     return {"objects": out, "params": params}
 
 
+TYCODES = None
+
+
+def extract_graph(scenario, sample):
+    """The real dependency graph of a compiled scenario in the model's vocabulary (see Model/Sample.lean):
+    -> (node specs, roots, value specs, objs) or None when a value type is outside the model."""
+    from scenic.core.distributions import Distribution, MultiplexerDistribution, needsSampling
+    from scenic.core.vectors import Orientation, Vector
+    tycode = {float: "f", int: "i", bool: "b", str: "y", bytes: "y", Vector: "v", Orientation: "o", type(None): "n"}
+    ids, nodes, objs = {}, [], []
+
+    def enc(ty, v):
+        c = tycode[ty]
+        if c == "f":
+            return "f" + struct.pack("<d", v).hex()
+        if c == "i":
+            return f"i{int(v)}"
+        if c == "b":
+            return "b1" if v else "b0"
+        if c == "y":
+            return "y" + hexs(v.encode() if isinstance(v, str) else v)
+        if c == "v":
+            return "v" + struct.pack("<ddd", *v.coordinates).hex()
+        if c == "o":
+            return "o" + struct.pack("<dddd", *v.q).hex()
+        return "n"
+
+    class Unsupported(Exception):
+        pass
+
+    def visit(o):
+        if id(o) in ids:
+            return ids[id(o)]
+        val = "-"
+        if not needsSampling(o):
+            spec = "c"
+        elif isinstance(o, MultiplexerDistribution):
+            i = visit(o.index)
+            opts = [visit(x) for x in o.options]
+            spec = f"m:{i}:{','.join(map(str, opts))}"
+        elif isinstance(o, Distribution) and not o._deterministic:
+            ty = o._valueType
+            if ty not in tycode:
+                raise Unsupported(str(ty))
+            spec = "p:" + tycode[ty]
+            val = enc(ty, sample[o])
+        else:
+            deps = [visit(d) for d in o._conditioned._dependencies]
+            spec = "d:" + ",".join(map(str, deps))
+        if val == "-" and needsSampling(o):
+            v = sample[o]
+            if type(v) is int:
+                val = f"i{v}"
+        ids[id(o)] = len(nodes)
+        nodes.append(spec)
+        objs.append(o)
+        vals.append(val)
+        return ids[id(o)]
+
+    vals = []
+    try:
+        roots = [visit(o) for o in scenario.dependencies]
+    except Unsupported:
+        return None
+    return nodes, roots, vals, objs
+
+
+def corr_sample(ctx, sc, scene, data):
+    """Model writer/reader vs the real encoder/decoder on the real dependency graph of the scenario."""
+    from scenic.core.serialization import Serializer
+    g = extract_graph(sc, scene.sample)
+    if g is None:
+        ctx.hist("sample_corr", "unsupported-type")
+        return
+    nodes, roots, vals, objs = g
+    body = data[10:]
+    N, R, V = ";".join(nodes), ",".join(map(str, roots)), ";".join(vals)
+    lines = [f"C18 wsample {N} {R} {V}", f"C18 rsample {N} {R} {V} {hexs(body + b'*')}"]
+    cuts = sorted({0, 1, len(body) // 2, len(body) - 1} & set(range(len(body))))
+    for k in cuts:
+        lines.append(f"C18 rsample {N} {R} {V} {hexs(body[:k])}")
+    out = ctx.driver(lines)
+    kinds = {n[0] for n in nodes}
+    ctx.hist("sample_graph_nodes", min(len(nodes) // 10 * 10, 100))
+    for kd in kinds:
+        ctx.hist("sample_graph_kinds", kd)
+    ctx.case(("sample-corr", N, R, V))
+    if out[0] != "ok " + hexs(body):
+        ctx.broken("correspondence", "sample writer model vs Serializer.writeSample",
+                   f"nodes={N} roots={R}: lean={out[0][:200]} python=ok {hexs(body)[:200]}")
+        return
+    # reader: same rest, same set of keys, same primitive values
+    ser = Serializer(data)
+    ser.stream.read(10)
+    values = ser.readSample(sc.dependencies)
+    idx = {id(o): i for i, o in enumerate(objs)}
+    real_keys = sorted(idx[k] for k in values.storage if k in idx)
+    parts = out[1].split(" ")
+    ok = parts[0] == "ok" and parts[1] == "2a"
+    lean_env = dict(e.split("=", 1) for e in parts[2].split(";")) if ok and len(parts) > 2 and parts[2] else {}
+    if not ok or sorted(map(int, lean_env)) != real_keys:
+        ctx.broken("correspondence", "sample reader model vs Serializer.readSample",
+                   f"nodes={N}: lean={out[1][:200]} real_keys={real_keys}")
+        return
+    for i, spec in enumerate(nodes):
+        if spec.startswith("p:") and str(i) in lean_env and lean_env[str(i)] != vals[i]:
+            ctx.broken("correspondence", "sample reader model values", f"node {i}: lean={lean_env[str(i)]} real={vals[i]}")
+            return
+    for k, o in zip(cuts, out[2:]):
+        if o != "err":
+            # the real decoder must refuse every strict prefix (checked directly elsewhere); the model must too
+            ctx.broken("correspondence", "sample reader model on truncated input", f"prefix {k}: lean={o[:100]}")
+            return
+    ctx.hist("sample_corr", "agree")
+
+
 def direct_scenes(ctx):
     import scenic
     from scenic.core.serialization import SerializationError
@@ -443,6 +566,8 @@ def direct_scenes(ctx):
             ctx.case(("scene", code, data.hex()))
             ctx.hist("scene_bytes", min(len(data) // 20 * 20, 200))
             rep = {"kind": "scene", "program": code, "data": data.hex()}
+            if ctx.proof is not None and ctx.proof.build_ok:
+                corr_sample(ctx, sc, scene, data)
             try:
                 back = sc.sceneFromBytes(data)
                 same = canon_scene(back) == canon_scene(scene)
@@ -720,7 +845,8 @@ def run(ctx):
         ctx.notes.append(f"translator tie lost for valuesHaveDiverged: {e}")
     pr = ctx.prove(THEOREMS, side_conditions=SIDE)
     if ctx.tier == "thorough" and pr.build_ok:
-        ctx.leanchecker(["ScenicModel.Props.C18", "ScenicModel.Props.C18Int", "ScenicModel.Props.C18Replay"])
+        ctx.leanchecker(["ScenicModel.Props.C18", "ScenicModel.Props.C18Int", "ScenicModel.Props.C18Replay",
+                         "ScenicModel.Props.C18Sample"])
     found = False
     encs = []
     if pr.build_ok:
